@@ -4,6 +4,7 @@ import Rare.Model.AggLoopTrace
 import Rare.Drv.C01
 import Rare.Model.Lockset
 import Rare.Model.C05Status
+import Rare.Model.C05Logger
 namespace Rare.Drv.C05
 open Rare Rare.C01 Rare.Proto Rare.Pipeline
 
@@ -81,6 +82,19 @@ def stageClassVerdict (name : String) : String :=
   | "stageStateStdmath" => go stageStateStdmathFields stageStateStdmath
   | _ => "bad-args table"
 
+/-- `logger <goroutines> <msgs> <ctl>`: the logger transition system run to completion on a schedule of the driver's
+    own (rotating priorities), with a final `ImmediateLogs`; the observables of the final state. -/
+def loggerAnswer (g m : Nat) (ctl : String) : String :=
+  let cs : List C05Logger.Ctl := (ctl.toList.filterMap fun c =>
+    if c == 'D' then some .defer else if c == 'I' then some .immediate else none) ++ [.immediate]
+  let script : Nat → List String := fun i => if i < g then (List.range m).map fun k => s!"g{i}-m{k}" else []
+  let s := C05Logger.runN g (3 * g * m + 2 * cs.length + 8) 1 (C05Logger.init script cs)
+  let idle := (List.range g).all fun i => (s.pr i).pc == 0 && (s.pr i).todo.isEmpty
+  if !(idle && s.ctl.isEmpty && s.writer.isNone && s.buf.isEmpty && !s.deferred) then "model-run-incomplete" else
+  let perOk := (List.range g).all fun i => C05Logger.printedBy s.err i == script i
+  let whole := s.err.all fun p => p.1 < g
+  s!"ok lines={s.err.length} whole={if whole then 1 else 0} once={if perOk && s.err.length == g * m then 1 else 0} ordered={if perOk then 1 else 0}"
+
 /-- `status <setup> <body> <reps> <readers>`: the sequential meaning of a script of status updates (the
     observable part of `StatusString` after every step of `setup ++ body`), whether `body` brings the
     active list back to where it started (then the harness repeats it `reps` times against concurrent
@@ -104,6 +118,8 @@ def statusAnswer (setup body : String) (reps : Nat) : String :=
     `atrace <blob>`: trace inclusion of a real run's event log (blob as in C01's `ptrace`).
     `lockset <table>`: the static lockset verdict on the table regenerated from /repo.
     `status …`: status bookkeeping of the Batcher.  `pool …`: exclusive ownership of pooled objects.
+    `logger …` / `logerr …`: the deferred log (Model/C05Logger; `logger_final_flush_complete`); every failed open of
+    `OpenFilesToChan` is counted and logged once.
     `sigagg …`: SIGINT while the input is still running: graceful stop with a complete render of what was sampled
     (Model/C05Signal, `signal_final_render`).
     `stages …`: every value a worker computes with the shared compiled expression is the sequential value. -/
@@ -131,6 +147,9 @@ def handle : List String → String
   | "status" :: setup :: body :: reps :: _ => statusAnswer setup body reps.toNat!
   | "pool" :: _ => "ok bad=0"
   | "stages" :: _ => "ok bad=0 panics=0"
+  | "logger" :: g :: m :: ctl :: _ => loggerAnswer g.toNat! m.toNat! ctl
+  | "logerr" :: _ :: missing :: present :: _ =>
+    s!"ok errors={missing.toNat!} logged={missing.toNat!} whole=1 once=1 lines={2 * present.toNat!}"
   | "sigagg" :: _ => "ok returned=1 input_exhausted=0 final_render=1 final_eq_sampled=1 whole_batches=1 late_renders=0 late_samples=0 excl_ok=1"
   | _ => "bad-op"
 
